@@ -1,8 +1,8 @@
 package props
 
 import (
-	"os"
 	"fmt"
+	"os"
 	"strconv"
 	"strings"
 
@@ -394,17 +394,17 @@ func decideOnce(c *Ctx, h *ssa.Function, site ssa.Instruction, k string) {
 			for si, pol := range []bool{true, false} {
 				p := ir.Pred{E: e, Pol: pol}
 				if cmpIs(p, "==", func(x *ir.Expr) bool {
-				// the signer as spelled in the message, or its canonical bech32 form str(addr(msg.Signer))
-				if isMsgField(x, "Signer") {
-					form = "the raw msg.Signer string"
-					return true
-				}
-				if (x.Op == "call" || x.Op == "invoke") && strings.HasSuffix(x.Name, "AccAddress).String") && len(x.Args) >= 1 && isAddrOf(x.Args[0], "Signer") {
-					form = "canonical"
-					return true
-				}
-				return false
-			}, func(y *ir.Expr) bool {
+					// the signer as spelled in the message, or its canonical bech32 form str(addr(msg.Signer))
+					if isMsgField(x, "Signer") {
+						form = "the raw msg.Signer string"
+						return true
+					}
+					if (x.Op == "call" || x.Op == "invoke") && strings.HasSuffix(x.Name, "AccAddress).String") && len(x.Args) >= 1 && isAddrOf(x.Args[0], "Signer") {
+						form = "canonical"
+						return true
+					}
+					return false
+				}, func(y *ir.Expr) bool {
 					if y.Op != "field" || y.Name != "Signer" || len(y.Args) != 1 || y.Args[0].Op != "elem" {
 						return false
 					}
